@@ -502,6 +502,30 @@ func c01Attacks() []attack {
 			}})
 		}
 	}
+	// a genuine but no longer acceptable assertion next to a genuine acceptable one (both IdP-signed where the
+	// layout signs assertions): what is returned is the acceptable one ALONE - none of the other's attributes,
+	// statements or audiences
+	for _, staleFirst := range []bool{true, false} {
+		staleFirst := staleFirst
+		name := "fresh-genuine-then-stale-genuine"
+		if staleFirst {
+			name = "stale-genuine-then-fresh-genuine"
+		}
+		out = append(out, attack{name, func(x *c01x) {
+			s := x.spec("-stale")
+			s.Issue = fmtMS(x.now/ms*ms - int64(48*time.Hour))
+			s.NameID, s.AttrVals = "yesterdays-user", []string{"role=administrator", "stale-value"}
+			b := buildAssertion(s)
+			if x.lay.signAssert {
+				SignInto(b, x.signer)
+			}
+			if staleFirst {
+				x.resp.InsertAt(x.slotIndex(), x.cand(b))
+			} else {
+				x.resp.Kids = append(x.resp.Kids, x.cand(b))
+			}
+		}})
+	}
 	return out
 }
 
@@ -566,6 +590,11 @@ func c01Trusts() []struct {
 		{"meta-2-signing", func(c *Cfg) { c.Trust, c.Kds = tMeta, []KD{{"signing", []int{0}}, {"signing", []int{1}}} }},
 		{"meta-signing+encryption", func(c *Cfg) { c.Trust, c.Kds = tMeta, []KD{{"signing", []int{0}}, {"encryption", []int{2}}} }},
 		{"meta-use-omitted", func(c *Cfg) { c.Trust, c.Kds = tMeta, []KD{{"", []int{0}}, {"encryption", []int{2}}} }},
+		{"meta-signing-chain-in-one-descriptor", func(c *Cfg) { c.Trust, c.Kds = tMeta, []KD{{"signing", []int{0, 1}}} }},
+		{"meta-signing-three-in-one-descriptor", func(c *Cfg) { c.Trust, c.Kds = tMeta, []KD{{"signing", []int{2, 1, 0}}} }},
+		{"meta-encryption-chain-after-signing", func(c *Cfg) { c.Trust, c.Kds = tMeta, []KD{{"signing", []int{0}}, {"encryption", []int{2, 1}}} }},
+		{"meta-encryption-chain-before-signing", func(c *Cfg) { c.Trust, c.Kds = tMeta, []KD{{"encryption", []int{2, 1, 3}}, {"signing", []int{0}}} }},
+		{"meta-use-omitted-chain", func(c *Cfg) { c.Trust, c.Kds = tMeta, []KD{{"", []int{2, 1}}, {"encryption", []int{0}}} }},
 		{"meta-encryption-only", func(c *Cfg) { c.Trust, c.Kds = tMeta, []KD{{"encryption", []int{2}}} }},
 		{"meta-other-use", func(c *Cfg) { c.Trust, c.Kds = tMeta, []KD{{"other", []int{0}}, {"signing", []int{1}}} }},
 		{"meta-garbage-cert", func(c *Cfg) { c.Trust, c.Kds = tMeta, []KD{{"signing", []int{0}}, {"signing", []int{-1}}} }},
